@@ -316,6 +316,9 @@ func (ld *Layerdefs) RemoveLayer(name string, removeFiles bool) error {
 			return fmt.Errorf("Cannot pseudo-delete layer %s", name)
 		}
 		err = fs.Rename(layer.LayerPath, newname)
+		if err != nil {
+			return err
+		}
 	}
 
 	delete(ld.layermap, name)
@@ -367,7 +370,7 @@ func (ld *Layerdefs) RenameLayer(oldname, newname string) error {
 		child.Base = newname
 		err = ld.writeLayerFile(child)
 		if err != nil {
-			return nil
+			return err
 		}
 	}
 
